@@ -27,6 +27,9 @@ pub struct FragReader<'a> {
 	calls: usize,
 	/// fail the k-th read call (0-based) with an I/O error
 	pub fail_at: Option<usize>,
+	/// a stream that can only move forward (a pipe or a decompressor behind an adapter): any seek other than
+	/// `Current(n >= 0)` fails
+	pub forward_only: bool,
 	pub seeks: usize,
 	rng: crate::util::Rng,
 }
@@ -43,6 +46,7 @@ impl<'a> FragReader<'a> {
 			frag,
 			calls: 0,
 			fail_at: None,
+			forward_only: false,
 			seeks: 0,
 			rng: crate::util::Rng::new(seed),
 		}
@@ -110,6 +114,9 @@ impl<'a> Read for FragReader<'a> {
 impl<'a> Seek for FragReader<'a> {
 	fn seek(&mut self, pos: SeekFrom) -> io::Result<u64> {
 		self.seeks += 1;
+		if self.forward_only && !matches!(pos, SeekFrom::Current(d) if d >= 0) {
+			return Err(io::Error::new(io::ErrorKind::Unsupported, "this stream can only move forward"));
+		}
 		let new = match pos {
 			SeekFrom::Start(p) => p as i128,
 			SeekFrom::Current(d) => self.pos as i128 + d as i128,
